@@ -188,10 +188,10 @@ func c15ClearCovers(c *Ctx, t, dense *types.Named, pr *paginatedRoles) {
 		last := path[len(path)-1]
 		// reasoned exceptions
 		switch {
-		case last == "offset" && (t == dense || len(path) == 2):
+		case last == dr.offset && (t == dense || len(path) == 2):
 			c15OffsetException(c, t, key, writers)
 			continue
-		case t == pr.typ && last == "bufferCompactionTriggerLen":
+		case t == pr.typ && last == dr.trigger:
 			c15TriggerException(c, pr, key)
 			continue
 		}
@@ -259,7 +259,7 @@ func c15OffsetException(c *Ctx, t *types.Named, key, writers string) {
 			if t.isBin("==") {
 				for i := 0; i < 2; i++ {
 					x := t.Args[i].unver()
-					if t.Args[1-i].isConst("0") && x.Op == "field" && x.Sym == "count" {
+					if t.Args[1-i].isConst("0") && x.Op == "field" && x.Sym == dr.count {
 						return true
 					}
 				}
@@ -277,7 +277,7 @@ func c15OffsetException(c *Ctx, t *types.Named, key, writers string) {
 		assigned := 0
 		firstRead := 0
 		for _, e := range p.Effects {
-			if e.Kind == "store" && e.Addr.unver().Op == "field" && e.Addr.unver().Sym == "offset" {
+			if e.Kind == "store" && e.Addr.unver().Op == "field" && e.Addr.unver().Sym == dr.offset {
 				if assigned == 0 {
 					assigned = e.Seq
 				}
@@ -287,7 +287,7 @@ func c15OffsetException(c *Ctx, t *types.Named, key, writers string) {
 			mentions = func(t *Term) bool {
 				hit := false
 				t.walk(func(x *Term) bool {
-					if x.Op == "field" && x.Sym == "offset" {
+					if x.Op == "field" && x.Sym == dr.offset {
 						hit = true
 					}
 					return !hit
@@ -337,7 +337,7 @@ func c15TriggerException(c *Ctx, pr *paginatedRoles, key string) {
 		for _, b := range f.Blocks {
 			for _, in := range b.Instrs {
 				if u, ok := in.(*ssa.UnOp); ok && u.Op == token.MUL {
-					if fa, ok := u.X.(*ssa.FieldAddr); ok && fieldName(fa.X.Type(), fa.Field) == "bufferCompactionTriggerLen" {
+					if fa, ok := u.X.(*ssa.FieldAddr); ok && fieldName(fa.X.Type(), fa.Field) == dr.trigger {
 						reads = true
 					}
 				}
